@@ -275,3 +275,35 @@ def mclmc_scenarios(seed, n):
             sc["faults"] = [[rnd.randrange(6, 250), rnd.choice(NONFATAL)] for _ in range(rnd.choice([1, 3, 8]))]
         out.append(sc)
     return out
+
+
+def search_scenarios(seed, n):
+    """Short NUTS chains whose point is the initial step-size search (and its re-run after the first
+    transformation change): initial steps from 1e-7 to 1e4 (not powers of two), targets 0.05..0.99,
+    faults placed at the first evaluations so that some land on search probes."""
+    rnd = random.Random(seed)
+    out = []
+    for i in range(n):
+        preset = NUTS_PRESETS[i % 3]
+        dim = rnd.choice([1, 2, 3, 5])
+        dens = rnd.choice(DENS)
+        if dens["kind"] in ("Banana", "Funnel") and dim < 2:
+            dim = 2
+        method = rnd.choice(["DualAverage", "DualAverage", "Adam"]) if i % 13 else {"Fixed": 0.3}
+        initial = rnd.choice([0.1, 0.1, 1.0, 3.7e-7, 1.3e-3, 0.07, 2.5, 40.0, 977.0, 1.1e4, 10 ** rnd.uniform(-6, 3)])
+        target = rnd.choice([0.8, 0.8, 0.5, 0.05, 0.3, 0.65, 0.95, 0.99, rnd.uniform(0.05, 0.99)])
+        sss = {"initial_step": initial, "target_accept": target, "adapt_options": {"method": method}}
+        st = {"num_tune": rnd.choice([0, 12, 30, 60]), "num_draws": 2, "maxdepth": rnd.choice([3, 5]),
+              "seed": rnd.randrange(1 << 30), "max_energy_error": rnd.choice([1000.0, 1000.0, 20.0, 0.5])}
+        if "flow" in preset:
+            st["adapt_options"] = {"step_size_settings": sss, "transform_update_freq": rnd.choice([128, 8])}
+        else:
+            st["adapt_options"] = {"step_size_settings": sss,
+                                   "early_mass_matrix_switch_freq": rnd.choice([10, 3]),
+                                   "mass_matrix_switch_freq": rnd.choice([80, 10])}
+        sc = {"preset": preset, "dim": dim, "density": dens, "settings": st, "seed": rnd.randrange(1 << 30),
+              "chain": rnd.randrange(3), "init": [rnd.uniform(-2, 2) for _ in range(dim)]}
+        if rnd.random() < 0.35:
+            sc["faults"] = [[rnd.randrange(2, 14), rnd.choice(NONFATAL + ["FatalErr"])] for _ in range(rnd.choice([1, 1, 2]))]
+        out.append(sc)
+    return out
